@@ -6,7 +6,7 @@ From Coq Require Import List NArith Lia Bool.
 From Coq Require Import ZifyN ZifyNat ZifyBool.
 Import ListNotations.
 Open Scope N_scope.
-Ltac Zify.zify_post_hook ::= Z.div_mod_to_equations.
+Local Ltac Zify.zify_post_hook ::= Z.div_mod_to_equations.
 
 (* ------------------------------------------------------------------ *)
 (* Exhaustive checks over 0..255                                      *)
@@ -229,10 +229,12 @@ Qed.
 Lemma has_strip : forall k s, k <> 0 -> has k (strip_nl s) = has k s.
 Proof.
   intros k s Hk. induction s as [|c r IH]; [reflexivity|].
-  cbn [strip_nl filter has existsb]. fold (strip_nl r). fold (has k r). fold (has k (strip_nl r)).
+  change (strip_nl (c :: r)) with (if negb (is_nl c) then c :: strip_nl r else strip_nl r).
+  change (has k (c :: r)) with ((spec_cls c =? k) || has k r).
   destruct (char_cases c) as [v K N6 | v K N6 | v K N6 | _ K N6 | K N6 | K N6];
-    rewrite N6; cbn [negb orb];
-    try (cbn [has existsb]; fold (has k (strip_nl r)); rewrite IH; reflexivity).
+    rewrite N6; cbn [negb];
+    try (change (has k (c :: strip_nl r)) with ((spec_cls c =? k) || has k (strip_nl r));
+         rewrite IH; reflexivity).
   rewrite K. rewrite IH. destruct (N.eqb_spec 0 k); [congruence|]. reflexivity.
 Qed.
 
@@ -258,3 +260,557 @@ Qed.
 
 Lemma which_with_none : forall s, has 255 s = true -> which_with spec_cls s = None.
 Proof. intros s H. unfold which_with. rewrite scan_spec, H. reflexivity. Qed.
+
+(* ------------------------------------------------------------------ *)
+(* What a successful decode says about its input                       *)
+(* ------------------------------------------------------------------ *)
+Definition okc (u p : bool) (c : N) : bool := isSome (b64val u c) || (p && (c =? 61)).
+
+Definition len_ok (p : bool) (n : nat) : Prop :=
+  if p then (n mod 4 = 0)%nat else (n mod 4 <> 1)%nat.
+
+Definition head_ok (u : bool) (t : bytes) : Prop :=
+  match t with [] => True | a :: _ => isSome (b64val u a) = true end.
+
+Lemma core_facts : forall f u p t bs, core f u p t = Some bs ->
+  forallb (okc u p) t = true /\ len_ok p (length t) /\ head_ok u t.
+Proof.
+  induction f as [|f IH]; intros u p t bs H; [discriminate|].
+  destruct t as [|a [|b [|c [|d r]]]]; cbn [core] in H.
+  - unfold len_ok. destruct p; cbn; repeat split; lia.
+  - discriminate.
+  - destruct p; [discriminate|].
+    destruct (b64val u a) eqn:Ea; [|discriminate].
+    destruct (b64val u b) eqn:Eb; [|discriminate].
+    unfold okc, len_ok, head_ok. cbn [forallb length]. rewrite Ea, Eb. cbn. repeat split; lia.
+  - destruct p; [discriminate|].
+    destruct (b64val u a) eqn:Ea; [|discriminate].
+    destruct (b64val u b) eqn:Eb; [|discriminate].
+    destruct (b64val u c) eqn:Ec; [|discriminate].
+    unfold okc, len_ok, head_ok. cbn [forallb length]. rewrite Ea, Eb, Ec. cbn. repeat split; lia.
+  - destruct (b64val u a) eqn:Ea; [|discriminate].
+    destruct (b64val u b) eqn:Eb; [|discriminate].
+    destruct (b64val u c) eqn:Ec.
+    + destruct (b64val u d) eqn:Ed.
+      * destruct (core f u p r) eqn:ER; [|discriminate].
+        destruct (IH _ _ _ _ ER) as (H1 & H2 & _).
+        unfold okc, len_ok, head_ok in *. cbn [forallb length]. rewrite Ea, Eb, Ec, Ed, H1.
+        cbn [isSome orb andb]. repeat split. destruct p; lia.
+      * destruct p; [|discriminate]. cbn [andb] in H.
+        destruct (d =? 61) eqn:E6; [|discriminate].
+        destruct r; [|discriminate].
+        unfold okc, len_ok, head_ok in *. cbn [forallb length]. rewrite Ea, Eb, Ec, Ed, E6.
+        cbn. repeat split.
+    + destruct p; [|discriminate]. cbn [andb] in H.
+      destruct (c =? 61) eqn:E6; [|discriminate].
+      destruct (d =? 61) eqn:E6'; [|discriminate].
+      destruct r; [|discriminate].
+      unfold okc, len_ok, head_ok in *. cbn [forallb length]. rewrite Ea, Eb, Ec, E6, E6'.
+      cbn. rewrite orb_true_r. repeat split.
+Qed.
+
+(* per-character consequences *)
+Lemma okc_not255 : forall u p c, okc u p c = true -> (spec_cls c =? 255) = false.
+Proof.
+  intros u p c H. unfold okc in H.
+  destruct (char_cases c) as [v K N6 E6 T F | v K N6 E6 T F | v K N6 E6 T F | _ K N6 E6 T F | K N6 | K N6 E6 T F];
+    try (rewrite K; reflexivity).
+  destruct u; rewrite ?T, ?F, E6, andb_false_r in H; discriminate.
+Qed.
+
+Lemma okc_url_not2 : forall p c, okc true p c = true -> (spec_cls c =? 2) = false.
+Proof.
+  intros p c H. unfold okc in H.
+  destruct (char_cases c) as [v K N6 E6 T F | v K N6 E6 T F | v K N6 E6 T F | _ K N6 E6 T F | K N6 | K N6 E6 T F];
+    try (rewrite K; reflexivity).
+  rewrite T, E6, andb_false_r in H; discriminate.
+Qed.
+
+Lemma okc_std_not4 : forall p c, okc false p c = true -> (spec_cls c =? 4) = false.
+Proof.
+  intros p c H. unfold okc in H.
+  destruct (char_cases c) as [v K N6 E6 T F | v K N6 E6 T F | v K N6 E6 T F | _ K N6 E6 T F | K N6 | K N6 E6 T F];
+    try (rewrite K; reflexivity).
+  rewrite F, E6, andb_false_r in H; discriminate.
+Qed.
+
+Lemma okc_raw_not8 : forall u c, okc u false c = true -> (spec_cls c =? 8) = false.
+Proof.
+  intros u c H. unfold okc in H.
+  destruct (char_cases c) as [v K N6 E6 T F | v K N6 E6 T F | v K N6 E6 T F | _ K N6 E6 T F | K N6 | K N6 E6 T F];
+    try (rewrite K; reflexivity).
+  destruct u; rewrite ?T, ?F in H; discriminate.
+Qed.
+
+Lemma some_is_124 : forall u c, isSome (b64val u c) = true ->
+  (spec_cls c =? 1) || (spec_cls c =? 2) || (spec_cls c =? 4) = true.
+Proof.
+  intros u c H.
+  destruct (char_cases c) as [v K N6 E6 T F | v K N6 E6 T F | v K N6 E6 T F | _ K N6 E6 T F | K N6 | K N6 E6 T F];
+    try (rewrite K; reflexivity).
+  - destruct u; rewrite ?T, ?F in H; discriminate.
+  - pose proof (chk_all c) as C. unfold chk in C. rewrite K in C. cbn [N.eqb Pos.eqb] in C.
+    unfold is_nl in *. unfold b64val in H.
+    assert (c = 10 \/ c = 13) as [-> | ->] by lia; destruct u; discriminate.
+  - destruct u; rewrite ?T, ?F in H; discriminate.
+Qed.
+
+Lemma forallb_existsb_false : forall (P Q : N -> bool) l,
+  (forall c, P c = true -> Q c = false) -> forallb P l = true -> existsb Q l = false.
+Proof.
+  intros P Q l H. induction l as [|a r IH]; [reflexivity|].
+  cbn. intros HH. apply andb_prop in HH. destruct HH as [Ha Hr].
+  rewrite (H a Ha), (IH Hr). reflexivity.
+Qed.
+
+Lemma ok_has255 : forall u p t, forallb (okc u p) t = true -> has 255 t = false.
+Proof. intros u p t. apply forallb_existsb_false. apply okc_not255. Qed.
+Lemma ok_has2 : forall p t, forallb (okc true p) t = true -> has 2 t = false.
+Proof. intros p t. apply forallb_existsb_false. apply okc_url_not2. Qed.
+Lemma ok_has4 : forall p t, forallb (okc false p) t = true -> has 4 t = false.
+Proof. intros p t. apply forallb_existsb_false. apply okc_std_not4. Qed.
+Lemma ok_has8 : forall u t, forallb (okc u false) t = true -> has 8 t = false.
+Proof. intros u t. apply forallb_existsb_false. apply okc_raw_not8. Qed.
+
+Lemma head_has124 : forall u t, head_ok u t -> has 8 t = true ->
+  has 1 t || has 2 t || has 4 t = true.
+Proof.
+  intros u [|a r] H H8; [discriminate|].
+  cbn [head_ok] in H. apply some_is_124 in H.
+  unfold has; cbn [existsb].
+  destruct (spec_cls a =? 1), (spec_cls a =? 2), (spec_cls a =? 4); cbn in *;
+    rewrite ?orb_true_r; try reflexivity; discriminate.
+Qed.
+
+(* has 255 of the unstripped text *)
+Lemma has255_strip : forall s, has 255 (strip_nl s) = has 255 s.
+Proof. intros s. apply has_strip. discriminate. Qed.
+
+(* ------------------------------------------------------------------ *)
+(* Transfer between the four decoders                                  *)
+(* ------------------------------------------------------------------ *)
+Lemma core_ext : forall u u' f p t,
+  (forall c, In c t -> b64val u c = b64val u' c) -> core f u p t = core f u' p t.
+Proof.
+  intros u u'. induction f as [|f IH]; intros p t H; [reflexivity|].
+  destruct t as [|a [|b [|c [|d r]]]]; cbn [core]; try reflexivity.
+  - rewrite (H a), (H b) by (simpl; auto). reflexivity.
+  - rewrite (H a), (H b), (H c) by (simpl; auto). reflexivity.
+  - rewrite (H a), (H b), (H c), (H d) by (simpl; auto).
+    rewrite (IH p r) by (intros x Hx; apply H; simpl; auto). reflexivity.
+Qed.
+
+Lemma same_val : forall c, (spec_cls c =? 2) = false -> (spec_cls c =? 4) = false ->
+  b64val true c = b64val false c.
+Proof.
+  intros c H2 H4.
+  destruct (char_cases c) as [v K N6 E6 T F | v K N6 E6 T F | v K N6 E6 T F | _ K N6 E6 T F | K N6 | K N6 E6 T F];
+    try (rewrite K in *; discriminate); try congruence.
+  pose proof (chk_all c) as C. unfold chk in C. rewrite K in C. cbn [N.eqb Pos.eqb] in C.
+  unfold is_nl in *. assert (c = 10 \/ c = 13) as [-> | ->] by lia; reflexivity.
+Qed.
+
+Lemma transfer_url : forall t, has 2 t = false -> has 4 t = false ->
+  forall f p, core f true p t = core f false p t.
+Proof.
+  intros t H2 H4 f p. apply core_ext. intros c Hc.
+  unfold has in *. rewrite <- not_true_iff_false in H2, H4. rewrite existsb_exists in H2, H4.
+  apply same_val.
+  - destruct (spec_cls c =? 2) eqn:E; [|reflexivity]. exfalso. apply H2. eauto.
+  - destruct (spec_cls c =? 4) eqn:E; [|reflexivity]. exfalso. apply H4. eauto.
+Qed.
+
+Lemma no61 : forall t c, has 8 t = false -> In c t -> (c =? 61) = false.
+Proof.
+  intros t c H Hc. unfold has in H. rewrite <- not_true_iff_false in H. rewrite existsb_exists in H.
+  destruct (c =? 61) eqn:E; [|reflexivity]. exfalso. apply H. exists c. split; [exact Hc|].
+  apply N.eqb_eq in E. subst c. reflexivity.
+Qed.
+
+Lemma transfer_pad_gen : forall u f t, (forall c, In c t -> (c =? 61) = false) ->
+  (length t mod 4 = 0)%nat -> core f u true t = core f u false t.
+Proof.
+  intros u. induction f as [|f IH]; intros t H L; [reflexivity|].
+  destruct t as [|a [|b [|c [|d r]]]]; cbn [core]; try reflexivity;
+    try (cbn [length] in L; exfalso; cbn in L; lia).
+  rewrite (H c), (H d) by (simpl; auto). cbn [andb].
+  rewrite (IH r); [reflexivity | intros x Hx; apply H; simpl; auto | cbn [length] in L; lia].
+Qed.
+
+Lemma transfer_pad : forall t, has 8 t = false -> (length t mod 4 = 0)%nat ->
+  forall f u, core f u true t = core f u false t.
+Proof.
+  intros t H L f u. apply transfer_pad_gen; [|exact L]. intros c Hc. eapply no61; eauto.
+Qed.
+
+(* ------------------------------------------------------------------ *)
+(* Completeness: whatever one of the four decoders accepts, so do we   *)
+(* ------------------------------------------------------------------ *)
+Lemma which_switch_table : forall b1 b2 b4 b8,
+  which_switch (bits4 b1 b2 b4 b8) =
+  match b8, b4, b2 with
+  | false, false, _ => Some RawStd
+  | false, true, false => Some RawURL
+  | true, false, false => if b1 then Some Std else None
+  | true, false, true => Some Std
+  | true, true, false => Some URL
+  | _, _, _ => None
+  end.
+Proof. intros [|] [|] [|] [|]; reflexivity. Qed.
+
+Lemma which_complete : forall s e bs, std_decode e s = Some bs ->
+  exists e', which_with spec_cls s = Some e' /\ std_decode e' s = Some bs.
+Proof.
+  intros s e bs H. unfold std_decode in *. cbv zeta in *.
+  set (t := strip_nl s) in *.
+  destruct (core_facts _ _ _ _ _ H) as (Hok & Hlen & Hhead).
+  pose proof (ok_has255 _ _ _ Hok) as H255. unfold t in H255. rewrite has255_strip in H255.
+  pose proof (which_with_bits s H255) as W. cbv zeta in W. fold t in W.
+  pose proof (head_has124 _ _ Hhead) as H124.
+  pose proof (transfer_url t) as Turl.
+  pose proof (transfer_pad t) as Tpad.
+  assert (Hbad : bad (has 8 t) (N.of_nat (length t)) = false).
+  { unfold bad, len_ok in *. destruct (enc_padded e) eqn:P.
+    - assert (E : N.of_nat (length t) mod 4 = 0) by lia. rewrite E.
+      destruct (has 8 t); reflexivity.
+    - rewrite (ok_has8 _ _ Hok). cbn [negb andb orb]. apply N.eqb_neq. lia. }
+  rewrite Hbad, which_switch_table in W. clear Hbad.
+  assert (Hu : if enc_url e then has 2 t = false else has 4 t = false).
+  { destruct (enc_url e); [apply (ok_has2 _ _ Hok) | apply (ok_has4 _ _ Hok)]. }
+  assert (Hp : enc_padded e = false -> has 8 t = false).
+  { intros P. rewrite P in Hok. apply (ok_has8 _ _ Hok). }
+  unfold len_ok in Hlen. clear Hok Hhead H255.
+  rewrite W. clear W.
+  destruct e; cbn [enc_url enc_padded] in *; try rewrite (Hp eq_refl) in *; try rewrite Hu in *;
+    clear Hp Hu;
+    destruct (has 1 t), (has 2 t), (has 4 t), (has 8 t);
+    try (specialize (H124 eq_refl); discriminate);
+    (eexists; split; [reflexivity|]); cbn [enc_url enc_padded];
+    first [ exact H
+          | rewrite <- (Turl eq_refl eq_refl); exact H
+          | rewrite <- (Tpad eq_refl Hlen); exact H
+          | rewrite <- (Tpad eq_refl Hlen), <- (Turl eq_refl eq_refl); exact H ].
+Qed.
+
+Theorem decode_any_complete : forall s e bs, std_decode e s = Some bs -> decode_any s = Ok bs.
+Proof.
+  intros s e bs H. destruct (which_complete s e bs H) as (e' & W & D).
+  unfold decode_any, decode_any_gen. rewrite which_cls_spec, W, D. reflexivity.
+Qed.
+
+Theorem decode_any_sound : forall s bs, decode_any s = Ok bs -> exists e, std_decode e s = Some bs.
+Proof.
+  intros s bs H. unfold decode_any, decode_any_gen in H.
+  destruct (which_base64 s) as [e|]; [|discriminate].
+  destruct (std_decode e s) as [x|] eqn:D; [|discriminate].
+  exists e. congruence.
+Qed.
+
+Theorem decode_any_never_panics : forall s site, decode_any s <> Panic site.
+Proof.
+  intros s site. unfold decode_any, decode_any_gen.
+  destruct (which_base64 s) as [e|]; [|discriminate].
+  destruct (std_decode e s); discriminate.
+Qed.
+
+Theorem original_refuted : exists s site, decode_any_gen true s = Panic site.
+Proof. exists [65; 61; 65; 65]. eexists. vm_compute. reflexivity. Qed.
+
+Lemma decode_any_accept_iff : forall s,
+  (exists bs, decode_any s = Ok bs) <-> (exists e bs, std_decode e s = Some bs).
+Proof.
+  intros s. split.
+  - intros [bs H]. destruct (decode_any_sound s bs H) as [e D]. eauto.
+  - intros (e & bs & D). exists bs. eapply decode_any_complete; eauto.
+Qed.
+
+Lemma decode_any_same_bytes : forall s bs, decode_any s = Ok bs ->
+  forall e bs', std_decode e s = Some bs' -> bs' = bs.
+Proof.
+  intros s bs H e bs' D. apply decode_any_complete in D. congruence.
+Qed.
+
+(* ------------------------------------------------------------------ *)
+(* Acceptance depends only on the sequence of character classes        *)
+(* ------------------------------------------------------------------ *)
+(* shape of a successful decode, over "is this character '='" *)
+Definition nil_b {A} (l : list A) : bool := match l with [] => true | _ => false end.
+
+Fixpoint acore (fuel : nat) (padded : bool) (t : list bool) : bool :=
+  match fuel with
+  | O => false
+  | S f =>
+    match t with
+    | [] => true
+    | [a] => false
+    | [a; b] => negb padded && negb a && negb b
+    | [a; b; c] => negb padded && negb a && negb b && negb c
+    | a :: b :: c :: d :: r =>
+        if a || b then false
+        else if c then padded && d && nil_b r
+        else if d then padded && nil_b r
+        else acore f padded r
+    end
+  end.
+
+Lemma okc_some : forall u c v, b64val u c = Some v -> (c =? 61) = false.
+Proof.
+  intros u c v H. destruct (c =? 61) eqn:E; [|reflexivity].
+  apply N.eqb_eq in E. subst c. rewrite b64val_61 in H. discriminate.
+Qed.
+
+Lemma okc_none : forall u c, okc u true c = true -> b64val u c = None -> (c =? 61) = true.
+Proof. intros u c H N. unfold okc in H. rewrite N in H. exact H. Qed.
+
+Lemma core_acore : forall u f p t, forallb (okc u true) t = true ->
+  isSome (core f u p t) = acore f p (map (fun c => c =? 61) t).
+Proof.
+  intros u. induction f as [|f IH]; intros p t H; [reflexivity|].
+  destruct t as [|a [|b [|c [|d r]]]]; cbn [core acore map]; try reflexivity;
+    cbn [forallb] in H;
+    repeat match type of H with (_ && _) = true =>
+      let H1 := fresh "O" in apply andb_prop in H; destruct H as [H1 H] end.
+  - destruct (b64val u a) eqn:Ea; [rewrite (okc_some _ _ _ Ea) | rewrite (okc_none _ _ O Ea)];
+    (destruct (b64val u b) eqn:Eb; [rewrite (okc_some _ _ _ Eb) | rewrite (okc_none _ _ O0 Eb)]);
+    destruct p; reflexivity.
+  - destruct (b64val u a) eqn:Ea; [rewrite (okc_some _ _ _ Ea) | rewrite (okc_none _ _ O Ea)];
+    (destruct (b64val u b) eqn:Eb; [rewrite (okc_some _ _ _ Eb) | rewrite (okc_none _ _ O0 Eb)]);
+    (destruct (b64val u c) eqn:Ec; [rewrite (okc_some _ _ _ Ec) | rewrite (okc_none _ _ O1 Ec)]);
+    destruct p; reflexivity.
+  - destruct (b64val u a) eqn:Ea; [rewrite (okc_some _ _ _ Ea) | rewrite (okc_none _ _ O Ea)];
+    (destruct (b64val u b) eqn:Eb; [rewrite (okc_some _ _ _ Eb) | rewrite (okc_none _ _ O0 Eb)]);
+    try reflexivity.
+    cbn [orb].
+    destruct (b64val u c) eqn:Ec; [rewrite (okc_some _ _ _ Ec) | rewrite (okc_none _ _ O1 Ec)];
+    (destruct (b64val u d) eqn:Ed; [rewrite (okc_some _ _ _ Ed) | rewrite (okc_none _ _ O2 Ed)]).
+    + rewrite <- (IH p r H). destruct (core f u p r); reflexivity.
+    + destruct p; cbn [andb]; [|reflexivity]. destruct r; reflexivity.
+    + destruct p; reflexivity.
+    + destruct p; cbn [andb]; [|reflexivity]. destruct r; reflexivity.
+Qed.
+
+Lemma scan_map : forall cl s b dl, which_scan cl s b dl = which_scan (fun x => x) (map cl s) b dl.
+Proof.
+  intros cl s. induction s as [|c r IH]; intros b dl; [reflexivity|].
+  cbn [map which_scan]. destruct (cl c =? cX); [reflexivity|]. apply IH.
+Qed.
+
+Lemma which_classes : forall s s', map spec_cls s = map spec_cls s' ->
+  which_with spec_cls s = which_with spec_cls s'.
+Proof.
+  intros s s' H. unfold which_with. rewrite (scan_map _ s), (scan_map _ s'), H. reflexivity.
+Qed.
+
+Lemma strip_classes : forall s,
+  map spec_cls (strip_nl s) = filter (fun k => negb (k =? 0)) (map spec_cls s).
+Proof.
+  induction s as [|c r IH]; [reflexivity|].
+  change (strip_nl (c :: r)) with (if negb (is_nl c) then c :: strip_nl r else strip_nl r).
+  cbn [map filter].
+  destruct (char_cases c) as [v K N6 | v K N6 | v K N6 | _ K N6 | K N6 | K N6];
+    rewrite N6; cbn [negb map]; rewrite ?K; cbn [negb N.eqb Pos.eqb]; rewrite IH; reflexivity.
+Qed.
+
+Lemma eq61_class : forall c, (c =? 61) = (spec_cls c =? 8).
+Proof.
+  intros c.
+  destruct (char_cases c) as [v K N6 E6 | v K N6 E6 | v K N6 E6 | _ K N6 E6 | K N6 | K N6 E6];
+    rewrite K; try rewrite E6; try reflexivity.
+  unfold is_nl in N6. cbn [N.eqb Pos.eqb]. lia.
+Qed.
+
+Lemma eq61_classes : forall t, map (fun c : N => c =? 61) t = map (fun k : N => k =? 8) (map spec_cls t).
+Proof. intros t. rewrite map_map. apply map_ext. intros c. apply eq61_class. Qed.
+
+Lemma class_okc : forall (u : bool) c, is_nl c = false -> (spec_cls c =? 255) = false ->
+  (spec_cls c =? (if u then 2 else 4)) = false -> okc u true c = true.
+Proof.
+  intros u c Hn HX Hk. unfold okc.
+  destruct (char_cases c) as [v K N6 E6 T F | v K N6 E6 T F | v K N6 E6 T F | _ K N6 E6 T F | K N6 | K N6 E6 T F];
+    try rewrite K in *; try congruence; try discriminate;
+    destruct u; rewrite ?T, ?F, ?E6; try reflexivity; discriminate.
+Qed.
+
+Lemma classes_ok : forall (u : bool) s, has 255 s = false -> has (if u then 2 else 4) s = false ->
+  forallb (okc u true) (strip_nl s) = true.
+Proof.
+  intros u. induction s as [|c r IH]; intros HX Hk; [reflexivity|].
+  unfold has in HX, Hk. cbn [existsb] in HX, Hk.
+  apply orb_false_iff in HX, Hk. destruct HX as [HX HXr]. destruct Hk as [Hk Hkr].
+  change (strip_nl (c :: r)) with (if negb (is_nl c) then c :: strip_nl r else strip_nl r).
+  destruct (is_nl c) eqn:N; cbn [negb].
+  - apply IH; assumption.
+  - cbn [forallb]. rewrite (class_okc u c N HX Hk). apply IH; assumption.
+Qed.
+
+Lemma which_ok : forall s e, which_with spec_cls s = Some e ->
+  forallb (okc (enc_url e) true) (strip_nl s) = true.
+Proof.
+  intros s e W. destruct (has 255 s) eqn:HX.
+  { rewrite (which_with_none s HX) in W. discriminate. }
+  rewrite (which_with_bits s HX) in W. cbv zeta in W.
+  destruct (bad _ _); [discriminate|].
+  rewrite which_switch_table in W. rewrite !has_strip in W by discriminate.
+  apply classes_ok; [exact HX|].
+  destruct (has 8 s), (has 4 s) eqn:E4, (has 2 s) eqn:E2, (has 1 s);
+    inversion W; subst e; cbn [enc_url]; assumption.
+Qed.
+
+Theorem class_abstraction : forall s s', map spec_cls s = map spec_cls s' ->
+  is_ok (decode_any s) = is_ok (decode_any s').
+Proof.
+  intros s s' H. unfold decode_any, decode_any_gen. rewrite !which_cls_spec.
+  rewrite <- (which_classes s s' H).
+  destruct (which_with spec_cls s) as [e|] eqn:W; [|reflexivity].
+  assert (W' : which_with spec_cls s' = Some e) by (rewrite <- (which_classes s s' H); exact W).
+  apply which_ok in W, W'.
+  assert (Ht : map spec_cls (strip_nl s) = map spec_cls (strip_nl s')).
+  { rewrite !strip_classes, H. reflexivity. }
+  assert (Hl : length (strip_nl s) = length (strip_nl s')).
+  { rewrite <- (map_length spec_cls (strip_nl s)), Ht. apply map_length. }
+  transitivity (isSome (std_decode e s)); [destruct (std_decode e s); reflexivity|].
+  transitivity (isSome (std_decode e s')); [|destruct (std_decode e s'); reflexivity].
+  unfold std_decode. cbv zeta. rewrite Hl.
+  rewrite (core_acore _ _ _ _ W), (core_acore _ _ _ _ W').
+  rewrite !eq61_classes, Ht. reflexivity.
+Qed.
+
+(* ------------------------------------------------------------------ *)
+(* Round trip: encode, wrap lines, decode                              *)
+(* ------------------------------------------------------------------ *)
+Definition no_nl (x : bytes) : bool := forallb (fun c => negb (is_nl c)) x.
+
+Lemma strip_id : forall x, no_nl x = true -> strip_nl x = x.
+Proof.
+  induction x as [|c r IH]; intros H; [reflexivity|].
+  cbn [no_nl forallb] in H. apply andb_prop in H. destruct H as [Hc Hr].
+  unfold strip_nl. cbn [filter]. rewrite Hc. f_equal. apply IH. exact Hr.
+Qed.
+
+Lemma strip_app : forall x y, strip_nl (x ++ y) = strip_nl x ++ strip_nl y.
+Proof. intros. apply filter_app. Qed.
+
+Lemma take_drop : forall A n (l : list A), take n l ++ drop n l = l.
+Proof.
+  intros A. induction n as [|n IH]; intros [|x l]; cbn; try reflexivity. f_equal. apply IH.
+Qed.
+
+Lemma no_nl_take : forall n x, no_nl x = true -> no_nl (take n x) = true.
+Proof.
+  induction n as [|n IH]; intros [|c r] H; cbn; try reflexivity.
+  cbn [no_nl forallb] in H. apply andb_prop in H. destruct H as [Hc Hr].
+  rewrite Hc. apply IH. exact Hr.
+Qed.
+
+Lemma no_nl_drop : forall n x, no_nl x = true -> no_nl (drop n x) = true.
+Proof.
+  induction n as [|n IH]; intros [|c r] H; cbn [drop]; try exact H.
+  cbn [no_nl forallb] in H. apply andb_prop in H. destruct H as [Hc Hr].
+  apply IH. exact Hr.
+Qed.
+
+Lemma strip_wrap_go : forall f w crlf x, no_nl x = true -> strip_nl (wrap_go f w crlf x) = x.
+Proof.
+  induction f as [|f IH]; intros w crlf x H; cbn [wrap_go].
+  - apply strip_id. exact H.
+  - destruct (Nat.leb (length x) w); [apply strip_id; exact H|].
+    rewrite !strip_app. rewrite (strip_id _ (no_nl_take w x H)).
+    rewrite (IH w crlf _ (no_nl_drop w x H)).
+    destruct crlf;
+      [change (strip_nl [13; 10]) with (@nil N) | change (strip_nl [10]) with (@nil N)];
+      cbn [app]; apply take_drop.
+Qed.
+
+Lemma strip_wrap : forall w crlf x, no_nl x = true -> strip_nl (wrap w crlf x) = x.
+Proof.
+  intros [|w] crlf x H; unfold wrap; [apply strip_id; exact H | apply strip_wrap_go; exact H].
+Qed.
+
+Lemma b64char_check : forall u,
+  forallb (fun v => opt_eqb (b64val u (b64char u v)) (Some v) && negb (is_nl (b64char u v)))
+          (range 64) = true.
+Proof. intros [|]; vm_compute; reflexivity. Qed.
+
+Lemma b64val_b64char : forall u v, v < 64 -> b64val u (b64char u v) = Some v.
+Proof.
+  intros u v H. pose proof (forall_range _ 64%nat (b64char_check u) v H) as C.
+  apply andb_prop in C. destruct C as [C _]. apply opt_eqb_eq. exact C.
+Qed.
+
+Lemma b64char_no_nl : forall u v, v < 64 -> negb (is_nl (b64char u v)) = true.
+Proof.
+  intros u v H. pose proof (forall_range _ 64%nat (b64char_check u) v H) as C.
+  apply andb_prop in C. destruct C as [_ C]. exact C.
+Qed.
+
+Lemma q3_enc : forall a b c, a < 256 -> b < 256 -> c < 256 ->
+  q3 (a / 4) ((a mod 4) * 16 + b / 16) ((b mod 16) * 4 + c / 64) (c mod 64) = [a; b; c].
+Proof.
+  intros a b c Ha Hb Hc. unfold q3. cbv zeta.
+  f_equal; [lia | f_equal; [lia | f_equal; lia]].
+Qed.
+
+Lemma q2_enc : forall a b, a < 256 -> b < 256 ->
+  q2 (a / 4) ((a mod 4) * 16 + b / 16) ((b mod 16) * 4) = [a; b].
+Proof.
+  intros a b Ha Hb. unfold q2, q3. cbv zeta. cbn [take].
+  f_equal; [lia | f_equal; lia].
+Qed.
+
+Lemma q1_enc : forall a, a < 256 -> q1 (a / 4) ((a mod 4) * 16) = [a].
+Proof.
+  intros a Ha. unfold q1, q3. cbv zeta. cbn [take]. f_equal; lia.
+Qed.
+
+Lemma is_nl_61 : negb (is_nl 61) = true.
+Proof. reflexivity. Qed.
+
+Lemma encode_core_props : forall u p n bs, (length bs < n)%nat -> bytes_ok bs = true ->
+  no_nl (encode_core u p bs) = true /\
+  forall f, (length (encode_core u p bs) < f)%nat -> core f u p (encode_core u p bs) = Some bs.
+Proof.
+  intros u p. induction n as [|n IH]; intros bs Hn Hok; [lia|].
+  destruct bs as [|a [|b [|c r]]].
+  - split; [reflexivity|]. intros [|f] Hf; [cbn in Hf; lia | reflexivity].
+  - cbn [bytes_ok forallb] in Hok. unfold byte_ok in Hok. assert (Ha : a < 256) by lia.
+    cbn [encode_core app]. destruct p; cbn [app]; split.
+    + cbn [no_nl forallb]. rewrite !b64char_no_nl by lia. reflexivity.
+    + intros [|f] Hf; [cbn in Hf; lia|]. cbn [core].
+      rewrite !b64val_b64char by lia. rewrite b64val_61. cbn [andb N.eqb Pos.eqb].
+      f_equal. apply q1_enc. exact Ha.
+    + cbn [no_nl forallb]. rewrite !b64char_no_nl by lia. reflexivity.
+    + intros [|f] Hf; [cbn in Hf; lia|]. cbn [core].
+      rewrite !b64val_b64char by lia. f_equal. apply q1_enc. exact Ha.
+  - cbn [bytes_ok forallb] in Hok. unfold byte_ok in Hok.
+    assert (Ha : a < 256) by lia. assert (Hb : b < 256) by lia.
+    cbn [encode_core app]. destruct p; cbn [app]; split.
+    + cbn [no_nl forallb]. rewrite !b64char_no_nl by lia. reflexivity.
+    + intros [|f] Hf; [cbn in Hf; lia|]. cbn [core].
+      rewrite !b64val_b64char by lia. rewrite b64val_61. cbn [andb N.eqb Pos.eqb].
+      f_equal. apply q2_enc; assumption.
+    + cbn [no_nl forallb]. rewrite !b64char_no_nl by lia. reflexivity.
+    + intros [|f] Hf; [cbn in Hf; lia|]. cbn [core].
+      rewrite !b64val_b64char by lia. f_equal. apply q2_enc; assumption.
+  - cbn [bytes_ok forallb] in Hok.
+    apply andb_prop in Hok. destruct Hok as [Ha Hok].
+    apply andb_prop in Hok. destruct Hok as [Hb Hok].
+    apply andb_prop in Hok. destruct Hok as [Hc Hr].
+    unfold byte_ok in Ha, Hb, Hc. apply N.ltb_lt in Ha, Hb, Hc. fold (bytes_ok r) in Hr.
+    assert (Hlr : (length r < n)%nat) by (cbn [length] in Hn; lia).
+    destruct (IH r Hlr Hr) as [IH1 IH2].
+    cbn [encode_core app]. split.
+    + cbn [no_nl forallb]. rewrite !b64char_no_nl by lia. exact IH1.
+    + intros [|f] Hf; [cbn in Hf; lia|]. cbn [core].
+      rewrite !b64val_b64char by lia. rewrite IH2 by (cbn [length] in Hf; lia).
+      rewrite q3_enc by assumption. reflexivity.
+Qed.
+
+Theorem roundtrip : forall e w crlf bs, bytes_ok bs = true ->
+  decode_any (wrap w crlf (encode e bs)) = Ok bs.
+Proof.
+  intros e w crlf bs H. apply (decode_any_complete _ e).
+  destruct (encode_core_props (enc_url e) (enc_padded e) (S (length bs)) bs (Nat.lt_succ_diag_r _) H)
+    as [Hnl Hcore].
+  unfold std_decode. cbv zeta. unfold encode. rewrite (strip_wrap _ _ _ Hnl).
+  apply Hcore. apply Nat.lt_succ_diag_r.
+Qed.
